@@ -93,6 +93,16 @@ def moveIndep (x y : Nat) : List (Nat × Int × Int) → M (List Nat)
       let d ← moveIndep x y rest
       return u :: d
 
+/-- the cofactors `(v0, v1, w0, w1)` of the children `v`, `w` of an x-node w.r.t. `y`, after the
+level assertions and the complement fix-up of `v` -/
+def depCofactors (v w : Int) (y : Nat) : M (Int × Int × Int × Int) := do
+  let (iv, v0, v1) ← swapCofactor v y
+  let (iw, w0, w1) ← swapCofactor w y
+  M.assert (y ≤ iv && y ≤ iw)
+  M.assert (y = iv || y = iw)
+  let (v0, v1) := if v < 0 && y = iv then (-v0, -v1) else (v0, v1)
+  return (v0, v1, w0, w1)
+
 /-- one iteration of the third loop of `swap`: rebuild the x-node `u = (x, v, w)` that depends
 on `y`; returns the nodes to add to `xfresh` -/
 def moveDepStep (x y : Nat) (u : Nat) (v w : Int) : M (List Nat) := do
@@ -102,11 +112,7 @@ def moveDepStep (x y : Nat) (u : Nat) (v w : Int) : M (List Nat) := do
   M.assert (v ≠ 0 && w ≠ 0)
   decref v
   decref w
-  let (iv, v0, v1) ← swapCofactor v y
-  let (iw, w0, w1) ← swapCofactor w y
-  M.assert (y ≤ iv && y ≤ iw)
-  M.assert (y = iv || y = iw)
-  let (v0, v1) := if v < 0 && y = iv then (-v0, -v1) else (v0, v1)
+  let (v0, v1, w0, w1) ← depCofactors v w y
   let p ← findOrAdd y v0 w0
   let q ← findOrAdd y v1 w1
   M.assert (0 ≤ q)
